@@ -41,6 +41,11 @@ PROPS = {
             "BPT.Props.C16.step_refines",
             "BPT.Props.C16.reachable_inv",
             "BPT.Props.C16.reachable_from_new",
+            "BPT.Props.C16.run_refines",
+            "BPT.Props.C16.history_from_new",
+            "BPT.Props.C16.run_outputs_length",
+            "BPT.Props.C16.live_handle_stays",
+            "BPT.Props.C16.no_reissue_while_live",
             "BPT.Props.C16.step_ok",
             "BPT.Props.C16.allocate_fresh",
             "BPT.Props.C16.get_other_none",
